@@ -227,9 +227,20 @@ def h_equation_and_containers(eng):
     elif which == "class":
         wide = getattr(eng, "tier", "quick") == "thorough"
         ns, ne = eng.choice(7 if wide else 4), eng.choice(13 if wide else 7)
-        syms = [VObj(VClass("Symbol"), {"name": "s%d" % i}) for i in range(ns)]
+        from contracts.C10 import PrefixList
+
+        class NoPrefix(PrefixList):
+            def __init__(self):
+                self.label, self.has, self.appended = "sym", {k: False for k in VARIABILITY}, []
+        syms = []
+        for i in range(ns):
+            sy = VObj(VClass("Symbol"), {"name": "s%d" % i, "prefixes": NoPrefix(), "type": VObj(VClass("ComponentRef"), {"name": "Real"})})
+            for f_ in ("start", "value", "fixed"):
+                sy.fields[f_] = A.prim(None)
+            syms.append(sy)
+            # the component element of a variable is whatever the real exitSymbol makes of it (wherever it keeps it)
+            eng.call(VBound(eng.find_function(MOD, "XmlGenerator.exitSymbol"), g), [sy], {})
         eqs = [A.new("Equation", left=A.ref("e%d" % i), right=A.prim(i)) for i in range(ne)]
-        ks = [kid(s, "sym%d" % i) for i, s in enumerate(syms)]
         ke = [kid(e, "eq%d" % i) for i, e in enumerate(eqs)]
         d = VDict([(s.fields["name"], s) for s in syms])
         tree = VObj(VClass("Class"), {"name": "M", "symbols": d, "equations": VList(eqs)})
@@ -237,7 +248,8 @@ def h_equation_and_containers(eng):
         el = ops.getitem(eng, xml, tree)
         ok = el.tag == "classDefinition" and el.attrs.get("name") == "M" and len(el.children) == 1
         c = el.children[0] if ok else None
-        ok = ok and c.tag == "class" and len(c.children) == ns + 1 and all(a is b for a, b in zip(c.children[:ns], ks))
+        ok = ok and c.tag == "class" and len(c.children) == ns + 1 and \
+            [(k.tag, k.attrs.get("name")) for k in c.children[:ns] if isinstance(k, Elem)] == [("component", "s%d" % i) for i in range(ns)]
         eq = c.children[-1] if ok else None
         ok = ok and eq.tag == "equation" and children_ok(eq, ke)
         # (P) one component per flat variable, one equation element per flat equation, in order
@@ -319,6 +331,17 @@ def h_declaration_equation(eng):
               equal=[getattr(k, "tag", "?") for k in (equal.children if equal is not None else [])])
 
 
+def component_element(eng, g, sym):
+    """the component element the generator made for a symbol, observed where the backend hands it out: in the class element of a
+    class that declares (only) this symbol -- not in whichever private table exitSymbol keeps it"""
+    cls = VObj(VClass("Class"), {"name": "Only", "symbols": VDict([(sym.fields["name"], sym)]), "equations": VList([])})
+    eng.call(VBound(eng.find_function(MOD, "XmlGenerator.exitClass"), g), [cls], {})
+    el = ops.getitem(eng, g.fields["xml"], cls)
+    c = el.children[0] if isinstance(el, Elem) and el.children else None
+    comps = [k for k in (c.children if c is not None else []) if isinstance(k, Elem) and k.tag == "component"]
+    return comps[0] if len(comps) == 1 else None
+
+
 def h_when_equation_in_a_class(eng):
     """exitSymbol, exitEquation, exitWhenEquation and exitClass composed on one class in the walker's order: a variable assigned inside
     a when-equation (y, declared without any prefix) and one declared `discrete` (d).  When the class element is built, every
@@ -346,7 +369,7 @@ def h_when_equation_in_a_class(eng):
         eng.call(VBound(f_ref, g), [refs[n]], {})
     for sy in syms:
         eng.call(VBound(eng.find_function(MOD, "XmlGenerator.exitSymbol"), g), [sy], {})
-    before = {sy.fields["name"]: dict(ops.getitem(eng, xml, sy).attrs) for sy in syms}
+    before = {sy.fields["name"]: dict(component_element(eng, g, sy).attrs) for sy in syms}
     body = [A.new("Equation", left=refs["y"], right=refs["x"]), A.new("Equation", left=refs["d"], right=refs["x"])]
     for e in body:
         eng.call(VBound(eng.find_function(MOD, "XmlGenerator.exitEquation"), g), [e], {})
@@ -392,7 +415,7 @@ def h_symbol(eng):
         sym.fields[f] = A.prim(v)
     eng.call(VBound(eng.find_function(MOD, "XmlGenerator.exitSymbol"), g), [sym], {})
     eng.cover("xml.symbol")
-    el = ops.getitem(eng, g.fields["xml"], sym)
+    el = component_element(eng, g, sym)
     ok = isinstance(el, Elem) and el.tag == "component" and len(el.children) == 2 and el.children[0].tag == "builtin" and el.children[1].tag == "modifier"
     eng.prove("symbol.is_component_with_builtin_and_modifier", z3.BoolVal(bool(ok)))
     if not ok:
@@ -437,12 +460,72 @@ def _same_number(txt, v):
         return False
 
 
+def _shape(el):
+    """an element as plain data (tag, attributes, children), literals as they are"""
+    if isinstance(el, Elem):
+        return (el.tag, tuple(sorted((k, repr(v)) for k, v in el.attrs.items())), tuple(_shape(c) for c in el.children))
+    return repr(el)
+
+
+def _class_components(eng, g, cls_name, syms):
+    """exitSymbol for every symbol of one class, then exitClass: the component elements of the class element, as plain data"""
+    xml = g.fields["xml"]
+    for sy in syms:
+        eng.call(VBound(eng.find_function(MOD, "XmlGenerator.exitSymbol"), g), [sy], {})
+    cls = VObj(VClass("Class"), {"name": cls_name, "symbols": VDict([(sy.fields["name"], sy) for sy in syms]), "equations": VList([])})
+    eng.call(VBound(eng.find_function(MOD, "XmlGenerator.exitClass"), g), [cls], {})
+    el = ops.getitem(eng, xml, cls)
+    c = el.children[0] if isinstance(el, Elem) and el.children else None
+    return [_shape(k) for k in (c.children if c is not None else []) if isinstance(k, Elem) and k.tag == "component"]
+
+
+def h_two_classes_with_one_variable_name(eng):
+    """One generator walks every class of the flat tree: a called function (pulled in before the model) and the model.  A formal
+    parameter of the function and a top-level variable of the model may have the SAME name (flat names are unique per class only).
+    The components of each class element are what exitSymbol derives from that class's own symbols -- exactly what the same class
+    gives when it is the only class the generator ever sees."""
+    from contracts.C10 import PrefixList
+
+    class P(PrefixList):
+        def __init__(self, eng, kinds):
+            self.label, self.appended = "sym", []
+            self.has = {k: (k in kinds) for k in VARIABILITY}
+    real = lambda: VObj(VClass("ComponentRef"), {"name": "Real"})
+
+    def mk(A, name, kinds, start=None, value=None, typ="Real"):
+        sy = VObj(VClass("Symbol"), {"name": name, "prefixes": P(eng, kinds), "type": VObj(VClass("ComponentRef"), {"name": typ})})
+        for f, v in (("start", start), ("value", value), ("fixed", None)):
+            sy.fields[f] = A.prim(v)
+        return sy
+    order = eng.choice(2)
+    eng.input("walk_order", ["function first", "model first"][order])
+
+    def classes(A):
+        return {"F": [mk(A, "lim", []), mk(A, "x", [], typ="Integer"), mk(A, "r", [])],
+                "M": [mk(A, "lim", ["parameter"], value=0.5), mk(A, "x", [], start=1), mk(A, "y", ["discrete"])]}
+    # reference: each class alone
+    alone = {}
+    for nme in ("F", "M"):
+        g1, A1 = setup(eng)
+        alone[nme] = _class_components(eng, g1, nme, classes(A1)[nme])
+    g, A = setup(eng)
+    both = classes(A)
+    got = {}
+    for nme in (("F", "M") if order == 0 else ("M", "F")):
+        got[nme] = _class_components(eng, g, nme, both[nme])
+    eng.cover("xml.two_classes")
+    for nme in ("F", "M"):
+        eng.prove("twoclasses.components_of_a_class_come_from_its_own_symbols", z3.BoolVal(got[nme] == alone[nme] and len(got[nme]) == 3),
+                  class_=nme, got=repr(got[nme])[:300], alone=repr(alone[nme])[:300])
+
+
 HARNESSES = [("XmlGenerator.exitExpression", h_expression), ("XmlGenerator.exitPrimary/exitComponentRef", h_leaves),
              ("XmlGenerator.exitEquation/Function/Class/Tree/WhenEquation/ClassModification", h_equation_and_containers),
              ("XmlGenerator: a when-equation inside a class (exitSymbol + exitEquation + exitWhenEquation + exitClass)", h_when_equation_in_a_class),
-             ("XmlGenerator.exitSymbol", h_symbol), ("XmlGenerator: declaration equation (exitSymbol + exitEquation + exitClass)", h_declaration_equation)]
+             ("XmlGenerator.exitSymbol", h_symbol), ("XmlGenerator: declaration equation (exitSymbol + exitEquation + exitClass)", h_declaration_equation),
+             ("XmlGenerator: two classes of the flat tree with one variable name", h_two_classes_with_one_variable_name)]
 EXPECTED_COVER = {"xml.when_in_class", "xml.expression", "xml.primary", "xml.ref", "xml.symbol", "xml.equation", "xml.function", "xml.class", "xml.tree",
-                  "xml.when", "xml.classmod", "xml.declaration_equation"}
+                  "xml.when", "xml.classmod", "xml.declaration_equation", "xml.two_classes"}
 BOUNDED = True
 LEVEL = "proof"
 TRUSTED = ["pyvc VC generator", "z3 5.1.0", "lxml: objectify.E(tag, *children, **attrs) builds an element with those children in order and those attributes; etree.tostring emits well-formed text",
